@@ -1882,12 +1882,16 @@ class Message(ABC):
                 ):
                     output[cased_name] = value.to_pydict(casing, include_default_values)
             elif meta.proto_type == TYPE_MAP:
+                # convert a copy: the map of the message itself must stay untouched
+                output_map = {**value}
                 for k in value:
                     if hasattr(value[k], "to_pydict"):
-                        value[k] = value[k].to_pydict(casing, include_default_values)
+                        output_map[k] = value[k].to_pydict(
+                            casing, include_default_values
+                        )
 
                 if value or include_default_values:
-                    output[cased_name] = value
+                    output[cased_name] = output_map
             elif (
                 value != self._get_field_default(field_name)
                 or include_default_values
